@@ -138,6 +138,10 @@ ERRS = {"IndexError": "EIndex", "ValueError": "EValue", "KeyError": "EKey"}
 _cli_code = {}
 
 
+class CliBlockMissing(Exception):
+    pass
+
+
 def cli_schedule(sem, kernel, mm=None):
     """Run exactly the statements osaca.inspect() executes under `if not args.fixed:` (extracted from the CURRENT
     source with ast), so that 'optimised twice as the CLI does' follows the code and not an assumption."""
@@ -161,7 +165,7 @@ def cli_schedule(sem, kernel, mm=None):
             _cli_code["code"] = compile(mod, "<osaca.inspect: if not args.fixed>", "exec")
             _cli_code["text"] = "\n".join(ast.unparse(b) for b in body)
     if _cli_code["code"] is None:
-        raise LookupError("the `if not args.fixed:` block of osaca.inspect was not found")
+        raise CliBlockMissing("the `if not args.fixed:` block of osaca.inspect was not found")
     ns = dict(vars(oo))
     ns.update({"semantics": sem, "kernel": kernel, "machine_model": mm, "args": types.SimpleNamespace(fixed=False)})
     exec(_cli_code["code"], ns)
@@ -194,9 +198,9 @@ def run_impl(case):
         if case["mode"] == "twice":
             cli_schedule(sem, kernel, mm)
         tps = sem.get_throughput_sum(kernel)
-    except LookupError:
+    except CliBlockMissing:
         raise
-    except Exception as e:  # noqa
+    except Exception as e:  # noqa  (IndexError / KeyError of the balancer are results, not harness failures)
         return ("err", classify_exc(e), repr(e))
     return ("ok", [[float(x) for x in i.port_pressure] for i in kernel], [float(x) for x in tps],
             [i.port_uops for i in kernel])
